@@ -343,3 +343,15 @@ Section TrajES.
     else (mkES b1 a1 (eiz s) (est s) (ebase s), [], G).
 End TrajES.
 
+
+(* ---- any number of even-sampling passes of one trajectory: the children of all passes are collected in spawn order ---- *)
+Section RunES.
+  Context {T : Type} (O : Ops T).
+  Fixpoint run_es (n : nat) (m : list T) (dt : T) (ds : list (sdata (T:=T))) (s : estate (T:=T)) : estate (T:=T) * list (estate (T:=T)) :=
+    match ds with
+    | [] => (s, [])
+    | d :: ds' =>
+        let '(s1, kids, _) := step_es O n m dt (de0 d) (de1 d) (dlam d) (dC d) s in
+        let '(sf, kids') := run_es n m dt ds' s1 in (sf, kids ++ kids')
+    end.
+End RunES.
